@@ -46,6 +46,9 @@ type state struct {
 	hs    []handle
 	metas []metaRef
 	vctr  int
+	// deep-nesting mode
+	maxDepth int
+	forceNew bool
 }
 
 type metaRef struct {
@@ -114,6 +117,12 @@ func runC19(r *sim.Run) {
 	faults := r.Config == "powerloss"
 
 	s := &state{r: r, disk: disk, comm: model.NewBucket()}
+	// one run in five nests deeply (the flat key layout carries the depth as a decimal number:
+	// two digits from depth 10 on)
+	s.maxDepth = 4
+	if t.Bool("deep", 1, 5) {
+		s.maxDepth = 13
+	}
 	db, err := walletdb.CreateDB("leveldb", dbPath)
 	if err != nil {
 		sim.EngineError("create db: %v", err)
@@ -127,6 +136,9 @@ func runC19(r *sim.Run) {
 	}()
 
 	nops := t.Range("nops", 5, 60)
+	if s.maxDepth > 4 {
+		nops += 30
+	}
 	for i := 0; i < nops && !r.Failed(); i++ {
 		s.step(faults)
 		r.State(hashStr(s.comm.Digest()))
@@ -536,7 +548,18 @@ func (s *state) writeTxStep(faults bool) {
 	case 2:
 		s.readOps(hs[t.Choose("handle", len(hs))])
 	case 3:
-		s.mutate(hs[t.Choose("handle", len(hs))])
+		h := hs[t.Choose("handle", len(hs))]
+		if s.maxDepth > 4 && t.Bool("deep.descend", 1, 2) {
+			// keep digging below the deepest bucket there is
+			for _, x := range hs {
+				if len(x.path) > len(h.path) {
+					h = x
+				}
+			}
+			s.forceNew = true
+		}
+		s.mutate(h)
+		s.forceNew = false
 	case 4:
 		err := s.wtx.Commit()
 		r.Event("Commit err=%v", err)
@@ -567,7 +590,11 @@ func (s *state) writeTxStep(faults bool) {
 func (s *state) mutate(h handle) {
 	r, t := s.r, s.r.T
 	m := s.work.Walk(h.path)
-	switch t.Weighted("op.mut", []int{10, 4, 2, 4, 3}) {
+	w := []int{10, 4, 2, 4, 3}
+	if s.forceNew {
+		w = []int{0, 0, 0, 1, 0}
+	}
+	switch t.Weighted("op.mut", w) {
 	case 0:
 		k, v := s.pickKey(), s.newValue()
 		err := h.b.Put(k, v)
@@ -604,8 +631,11 @@ func (s *state) mutate(h handle) {
 		m.KV = map[string][]byte{}
 	case 3:
 		n := s.pickName()
+		if s.forceNew {
+			n = []string{"a", "b", "ab"}[t.Choose("deep.name", 3)]
+		}
 		p := append(append([]string{}, h.path...), n)
-		if len(p) > 4 {
+		if len(p) > s.maxDepth {
 			return
 		}
 		b, err := h.b.NewBucket(n)
